@@ -1,0 +1,152 @@
+//go:build verif
+
+package zh
+
+// Machine-checked contracts for package zh (read by /verif/znvc; comment-only, compiled to nothing).
+// Tokeniser: C04 (what is a keyword / operator / identifier), C05 (no crash, progress, error positions), C13 (string literals).
+
+//@ pred tokenSpan(tk syntax.Token, l *syntax.Lexer, from int) = tk.StartIdx == from && tk.EndIdx == l.cursor && l.cursor > from
+
+//@ func isPureNumber
+//@   pure
+//@   ensures result == (ch >= 48 && ch <= 57)
+
+//@ func isIdentifierChar
+//@   pure
+//@   ensures result == syntax.IdInRange(ch)
+
+//@ func parsePunctuations
+//@   requires lexerWF(l)
+//@   modifies l.cursor
+//@   ensures lexerWF(l)
+//@   ensures r1 == nil ==> tokenSpan(r0, l, old(l.cursor)) && l.cursor == old(l.cursor) + 1 && r0.Type != TypeEOF
+//@   ensures r1 != nil ==> isSyntaxErrorAt(r1, l) && l.cursor == old(l.cursor)
+
+// + - * / are operators only when followed by a blank, a punctuation mark or a quote; otherwise the text is left
+// untouched for the identifier rule (C04)
+//@ func parseOperators
+//@   requires lexerWF(l)
+//@   modifies l.cursor
+//@   ensures lexerWF(l)
+//@   ensures r2 == nil && r0 ==> tokenSpan(r1, l, old(l.cursor)) && r1.Type != TypeEOF
+//@   ensures l.cursor >= old(l.cursor)
+//@   ensures r2 == nil && !r0 ==> l.cursor == old(l.cursor)
+//@   ensures r2 != nil ==> isSyntaxErrorAt(r2, l) && !r0
+//@   ensures [arith-op-needs-separator] r2 == nil && (old(charAt(l, l.cursor)) == PlusOp || old(charAt(l, l.cursor)) == MinusOp || old(charAt(l, l.cursor)) == MultiplyOp) ==>
+//@             (r0 <==> (syntax.IsWhiteSpace(old(charAt(l, l.cursor + 1))) || inRunes(old(charAt(l, l.cursor + 1)), markPunctuations) || inRunes(old(charAt(l, l.cursor + 1)), markQuotes)))
+
+// ---- keyword table (C04), generated from the documentation comments of the Type...W constants in keyword.go:
+// each constant's comment gives the spelling of the keyword it stands for. a,b,c,d are the four characters at the cursor.
+//@ fn kwType(a rune, b rune, c rune, d rune) int = (a == GlyphBU ? (b == GlyphXIAO && c == GlyphYU ? TypeLogicGteW : (b == GlyphDA && c == GlyphYU ? TypeLogicLteW : (b == GlyphDENG && c == GlyphYU ? TypeLogicNotEqW : (b == GlyphWEI ? TypeLogicNoW : 0)))) : (a == GlyphQIE ? TypeLogicAndW : (a == GlyphWEI ? TypeLogicYesW : (a == GlyphZHI ? TypeObjDotW : (a == GlyphLING ? TypeDeclareW : (a == GlyphYIi ? TypeVarOneW : (a == GlyphHE ? (b == GlyphWEI ? TypeGetterW : 0) : (a == GlyphQI ? TypeObjThisW : (a == GlyphZAI ? (b == GlyphRU ? TypeCondOtherW : 0) : (a == GlyphFOU ? (b == GlyphZE ? TypeCondElseW : 0) : (a == GlyphDA ? (b == GlyphYU ? TypeLogicGtW : 0) : (a == GlyphRU ? (b == GlyphHE ? TypeFuncW : (b == GlyphGUO ? TypeCondW : 0)) : (a == GlyphDING ? (b == GlyphYIy ? TypeObjDefineW : 0) : (a == GlyphDAO ? (b == GlyphRUy ? TypeImportW : 0) : (a == GlyphXIAO ? (b == GlyphYU ? TypeLogicLtW : 0) : (a == GlyphDEy ? (b == GlyphDAOy ? TypeGetResultW : 0) : (a == GlyphHENG ? (b == GlyphWEI ? TypeAssignConstW : 0) : (a == GlyphHUO ? TypeLogicOrW : (a == GlyphPAO ? (b == GlyphCHU ? TypeThrowErrorW : 0) : (a == GlyphLAN ? (b == GlyphJIEy ? TypeCatchErrorW : 0) : (a == GlyphXIN ? (b == GlyphJIAN ? TypeObjNewW : 0) : (a == GlyphMEI ? (b == GlyphDANG ? TypeWhileLoopW : 0) : (a == GlyphDE ? TypeObjDotIIW : (a == GlyphDENG ? (b == GlyphYU ? TypeLogicEqualW : 0) : (a == GlyphJIE ? (b == GlyphSHUy && c == GlyphXUN && d == GlyphHUAN ? TypeBreakW : 0) : (a == GlyphJI ? (b == GlyphXU && c == GlyphXUN && d == GlyphHUAN ? TypeContinueW : 0) : (a == GlyphSHE ? (b == GlyphWEI ? TypeAssignW : 0) : (a == GlyphSHU ? (b == GlyphRUy ? TypeInputW : (b == GlyphCHU ? TypeReturnW : 0)) : (a == GlyphBIAN ? (b == GlyphLI ? TypeIteratorW : 0) : 0)))))))))))))))))))))))))))))
+//@ fn kwLen(a rune, b rune, c rune, d rune) int = (a == GlyphBU ? (b == GlyphXIAO && c == GlyphYU ? 3 : (b == GlyphDA && c == GlyphYU ? 3 : (b == GlyphDENG && c == GlyphYU ? 3 : (b == GlyphWEI ? 2 : 0)))) : (a == GlyphQIE ? 1 : (a == GlyphWEI ? 1 : (a == GlyphZHI ? 1 : (a == GlyphLING ? 1 : (a == GlyphYIi ? 1 : (a == GlyphHE ? (b == GlyphWEI ? 2 : 0) : (a == GlyphQI ? 1 : (a == GlyphZAI ? (b == GlyphRU ? 2 : 0) : (a == GlyphFOU ? (b == GlyphZE ? 2 : 0) : (a == GlyphDA ? (b == GlyphYU ? 2 : 0) : (a == GlyphRU ? (b == GlyphHE ? 2 : (b == GlyphGUO ? 2 : 0)) : (a == GlyphDING ? (b == GlyphYIy ? 2 : 0) : (a == GlyphDAO ? (b == GlyphRUy ? 2 : 0) : (a == GlyphXIAO ? (b == GlyphYU ? 2 : 0) : (a == GlyphDEy ? (b == GlyphDAOy ? 2 : 0) : (a == GlyphHENG ? (b == GlyphWEI ? 2 : 0) : (a == GlyphHUO ? 1 : (a == GlyphPAO ? (b == GlyphCHU ? 2 : 0) : (a == GlyphLAN ? (b == GlyphJIEy ? 2 : 0) : (a == GlyphXIN ? (b == GlyphJIAN ? 2 : 0) : (a == GlyphMEI ? (b == GlyphDANG ? 2 : 0) : (a == GlyphDE ? 1 : (a == GlyphDENG ? (b == GlyphYU ? 2 : 0) : (a == GlyphJIE ? (b == GlyphSHUy && c == GlyphXUN && d == GlyphHUAN ? 4 : 0) : (a == GlyphJI ? (b == GlyphXU && c == GlyphXUN && d == GlyphHUAN ? 4 : 0) : (a == GlyphSHE ? (b == GlyphWEI ? 2 : 0) : (a == GlyphSHU ? (b == GlyphRUy ? 2 : (b == GlyphCHU ? 2 : 0)) : (a == GlyphBIAN ? (b == GlyphLI ? 2 : 0) : 0)))))))))))))))))))))))))))))
+
+// keywords are cut out wherever their characters occur: the token type and length are those of the table
+//@ func parseKeyword
+//@   requires lexerWF(l)
+//@   modifies l.cursor
+//@   ensures r2 == nil && lexerWF(l)
+//@   ensures [is-keyword-iff-in-table] r0 == (kwType(old(charAt(l, l.cursor)), old(charAt(l, l.cursor+1)), old(charAt(l, l.cursor+2)), old(charAt(l, l.cursor+3))) != 0)
+//@   ensures [type-from-table] r0 ==> r1.Type == kwType(old(charAt(l, l.cursor)), old(charAt(l, l.cursor+1)), old(charAt(l, l.cursor+2)), old(charAt(l, l.cursor+3))) && r1.StartIdx == old(l.cursor) && r1.EndIdx == l.cursor
+//@   ensures [cursor] l.cursor == (r0 && moveForward ? old(l.cursor) + kwLen(old(charAt(l, l.cursor)), old(charAt(l, l.cursor+1)), old(charAt(l, l.cursor+2)), old(charAt(l, l.cursor+3))) : old(l.cursor))
+//@   loop 1 invariant lexerWF(l) && 1 <= i && i <= wordLen + 1 && l.cursor == old(l.cursor) + i - 1 && old(l.cursor) + wordLen <= len(l.Source)
+//@   loop 1 decreases wordLen + 1 - i
+
+// `name`: the text between the backticks is one identifier, taken verbatim (no keyword extraction) (C04)
+//@ func parseVarQuote
+//@   requires lexerWF(l) && charAt(l, l.cursor) == BackTick
+//@   modifies l.cursor
+//@   ensures lexerWF(l) && l.cursor >= old(l.cursor)
+//@   ensures r1 == nil ==> tokenSpan(r0, l, old(l.cursor)) && r0.Type == TypeIdentifier && len(r0.Literal) == r0.EndIdx - r0.StartIdx - 2 &&
+//@             (forall i int :: 0 <= i && i < len(r0.Literal) ==> r0.Literal[i] == l.Source[r0.StartIdx + 1 + i])
+//@   ensures r1 != nil ==> isSyntaxErrorAt(r1, l)
+//@   loop 1 invariant lexerWF(l) && l.cursor == startIdx + len(literal) && l.cursor < len(l.Source) && (literal.base == 0 || fresh(literal))
+//@   loop 1 invariant forall i int :: 0 <= i && i < len(literal) ==> literal[i] == l.Source[startIdx + 1 + i]
+//@   loop 1 decreases len(l.Source) - l.cursor
+
+//@ func parseEOF
+//@   requires lexerWF(l) && lastLineOK(l)
+//@   modifies mem(l.Lines)
+//@   ensures lexerWF(l) && lastLineOK(l) && r1 == nil && r0.Type == TypeEOF && r0.StartIdx == l.cursor && r0.EndIdx == l.cursor
+
+// identifier: a maximal run of identifier characters; it stops at a blank, a mark, a comment start and wherever a
+// keyword begins ("keywords are cut out greedily from left to right") (C04)
+//@ func parseIdentifier
+//@   requires lexerWF(l)
+//@   modifies l.cursor
+//@   ensures lexerWF(l) && l.cursor >= old(l.cursor)
+//@   ensures r1 == nil ==> tokenSpan(r0, l, old(l.cursor)) && r0.Type == TypeIdentifier && len(r0.Literal) == r0.EndIdx - r0.StartIdx &&
+//@             (forall i int :: 0 <= i && i < len(r0.Literal) ==> r0.Literal[i] == l.Source[r0.StartIdx + i])
+//@   ensures [no-keyword-inside] r1 == nil ==> (forall k int :: old(l.cursor) < k && k < l.cursor ==>
+//@             kwType(charAt(l, k), charAt(l, k+1), charAt(l, k+2), charAt(l, k+3)) == 0)
+//@   ensures [no-blank-inside] r1 == nil ==> (forall k int :: old(l.cursor) < k && k < l.cursor ==> !syntax.IsWhiteSpace(charAt(l, k)))
+//@   ensures r1 != nil ==> isSyntaxErrorAt(r1, l)
+//@   loop 1 invariant lexerWF(l) && l.cursor == startIdx + len(literal) - 1 && len(literal) >= 1 && l.cursor < len(l.Source) && fresh(literal) && startIdx == old(l.cursor)
+//@   loop 1 invariant forall i int :: 0 <= i && i < len(literal) ==> literal[i] == l.Source[startIdx + i]
+//@   loop 1 invariant forall k int :: startIdx < k && k <= l.cursor ==> kwType(charAt(l, k), charAt(l, k+1), charAt(l, k+2), charAt(l, k+3)) == 0 && !syntax.IsWhiteSpace(charAt(l, k))
+//@   loop 1 decreases len(l.Source) - l.cursor
+
+//@ func parseComment
+//@   requires lexerWF(l) && lastLineOK(l) && (charAt(l, l.cursor) == CharZHU || charAt(l, l.cursor) == SlashOp)
+//@   modifies l.cursor, l.Lines, mem(l.Lines)
+//@   ensures lexerWF(l) && r2 == nil && l.cursor >= old(l.cursor) && (l.Lines.base == old(l.Lines.base) || fresh(l.Lines))
+//@   ensures r0 ==> tokenSpan(r1, l, old(l.cursor)) && r1.Type == TypeComment && lastLineOK(l)
+//@   ensures !r0 ==> len(l.Lines) == old(len(l.Lines)) && l.Lines == old(l.Lines) && sameMem(l.Lines)
+//@   loop 1 invariant lexerWF(l) && l.cursor < len(l.Source) && l.cursor >= old(l.cursor) && l.Lines == old(l.Lines) && sameMem(l.Lines)
+//@   loop 1 decreases len(l.Source) - l.cursor
+//@   loop 2 invariant lexerWF(l) && l.cursor > old(l.cursor) && lastLineLoose(l) && (l.Lines.base == old(l.Lines.base) || fresh(l.Lines)) && startIdx == old(l.cursor)
+//@   loop 2 decreases len(l.Source) - l.cursor
+
+// ---- string literals (C13) ----
+
+// closing quote of each opening quote (the five quote families of the manual)
+//@ fn closingQuote(q rune) rune = q == LeftDoubleQuoteI ? RightDoubleQuoteI : (q == LeftDoubleQuoteII ? RightDoubleQuoteII : (q == LeftSingleQuoteI ? RightSingleQuoteI : (q == LeftSingleQuoteII ? RightSingleQuoteII : (q == LeftLibQuoteI ? RightLibQuoteI : 0))))
+
+//@ pred isQuoteRune(c rune) = c == LeftDoubleQuoteI || c == LeftDoubleQuoteII || c == LeftSingleQuoteI || c == LeftSingleQuoteII || c == LeftLibQuoteI ||
+//@   c == RightDoubleQuoteI || c == RightDoubleQuoteII || c == RightSingleQuoteI || c == RightSingleQuoteII || c == RightLibQuoteI
+
+// backtick escape: never crashes, consumes forward, and only ever extends the literal
+//@ func unescapeBackTickSpecialStr
+//@   requires lexerWF(l) && charAt(l, l.cursor) == BackTick && srcLiteral.base != l.Source.base
+//@   modifies l.cursor, mem(srcLiteral)
+//@   ensures lexerWF(l) && l.cursor >= old(l.cursor) && len(result) >= len(srcLiteral)
+//@   ensures [keeps-literal] forall i int :: 0 <= i && i < len(srcLiteral) ==> result[i] == old(srcLiteral[i])
+//@   ensures result.base == srcLiteral.base || fresh(result)
+//@   ensures [lone-quote] isQuoteRune(old(charAt(l, l.cursor + 1))) && old(charAt(l, l.cursor + 2)) == BackTick ==>
+//@             len(result) == len(srcLiteral) + 1 && result[len(srcLiteral)] == old(charAt(l, l.cursor + 1)) && l.cursor == old(l.cursor) + 2
+//@   loop 1 invariant lexerWF(l) && l.cursor >= old(l.cursor) && fresh(literalBuffer) && len(literalBuffer) >= 1 && 0 <= hexCount && hexCount <= len(literalBuffer)
+//@   loop 1 invariant [first-pass] len(literalBuffer) == 1 <==> l.cursor == old(l.cursor)
+//@   loop 1 invariant sameMem(srcLiteral) && sameMem(l.Source)
+//@   loop 1 invariant [buffer-shape] (state == 1 ==> len(literalBuffer) == 1) && (state == 12 ==> len(literalBuffer) == 2) && (state == 13 ==> len(literalBuffer) == 3) &&
+//@             (state == 14 ==> len(literalBuffer) == 3 + hexCount && hexCount >= 1)
+//@   loop 1 invariant [not-a-lone-quote] l.cursor > old(l.cursor) ==> !(isQuoteRune(old(charAt(l, l.cursor + 1))) && old(charAt(l, l.cursor + 2)) == BackTick)
+//@   loop 1 decreases len(l.Source) - l.cursor
+
+//@ external strconv.ParseInt(s, base, bitSize) (i, err)
+//@   pure
+//@   ensures bitSize == 32 ==> 0 - 2147483648 <= i && i <= 2147483647
+
+// a literal closes only at its own closing quote at nesting depth zero; an unterminated literal is a syntax error;
+// ordinary characters are copied verbatim, one per pass
+//@ func parseString
+//@   requires lexerWF(l) && lastLineOK(l) && closingQuote(charAt(l, l.cursor)) != 0
+//@   modifies l.cursor, l.Lines, mem(l.Lines)
+//@   ensures lexerWF(l) && (l.Lines.base == old(l.Lines.base) || fresh(l.Lines)) && l.cursor >= old(l.cursor)
+//@   ensures r1 == nil ==> tokenSpan(r0, l, old(l.cursor)) && lastLineOK(l) && r0.Type != TypeEOF
+//@   ensures [closes-at-own-quote] r1 == nil ==> charAt(l, r0.EndIdx - 1) == closingQuote(old(charAt(l, l.cursor)))
+//@   ensures [type-by-family] r1 == nil ==> r0.Type == (old(charAt(l, l.cursor)) == LeftSingleQuoteI || old(charAt(l, l.cursor)) == LeftSingleQuoteII ? TypeEnumString : (old(charAt(l, l.cursor)) == LeftLibQuoteI ? TypeLibString : TypeString))
+//@   ensures [unterminated-is-error] r1 != nil ==> isSyntaxErrorAt(r1, l) && as(r1, *zerr.SyntaxError).Code == zerr.ErrIncomleteString
+//@   loop 1 invariant lexerWF(l) && l.cursor >= old(l.cursor) && quoteNum >= 1 && quoteNum <= l.cursor - startIdx + 1 && fresh(literal) && lastLineLoose(l) && (l.Lines.base == old(l.Lines.base) || fresh(l.Lines)) && sch == old(charAt(l, l.cursor)) && startIdx == old(l.cursor)
+//@   loop 1 decreases len(l.Source) - l.cursor
+//@   loop 1 step [keeps-literal] len(literal) >= prev(len(literal)) && (forall i int :: 0 <= i && i < prev(len(literal)) ==> literal[i] == prev(literal[i]))
+//@   loop 1 step [verbatim] ch != BackTick && ch != syntax.RuneCR && ch != syntax.RuneLF ==> len(literal) == prev(len(literal)) + 1 && literal[prev(len(literal))] == ch && ch == charAt(l, l.cursor) && l.cursor == prev(l.cursor) + 1
+//@   loop 1 step [depth] quoteNum == prev(quoteNum) + (ch == sch ? 1 : 0) - (ch == closingQuote(sch) ? 1 : 0)
+
+// ---- NextToken (C04 dispatch, C05 progress and error positions) ----
+//@ func NextToken
+//@   requires lexerWF(l) && (l.beginLex ? l.cursor == 0 && len(l.Lines) == 0 : lastLineOK(l))
+//@   modifies l.cursor, l.IndentType, l.Lines, mem(l.Lines), l.beginLex
+//@   ensures lexerWF(l) && !l.beginLex && l.cursor >= old(l.cursor)
+//@   ensures r1 == nil ==> lastLineOK(l) && r0.EndIdx == l.cursor && r0.StartIdx >= old(l.cursor) && r0.StartIdx <= r0.EndIdx
+//@   ensures [progress] r1 == nil && r0.Type != TypeEOF ==> l.cursor > old(l.cursor) && r0.EndIdx > r0.StartIdx
+//@   ensures [eof-means-end-of-text] r1 == nil && r0.Type == TypeEOF ==> l.cursor == len(l.Source)
+//@   ensures [error-has-position] r1 != nil ==> isSyntaxErrorAt(r1, l)
